@@ -32,11 +32,11 @@ Definition tagmap_eqb (a c : tagmap) : bool :=
 (* ---- model vs observed ---- *)
 
 Definition tags_mismatch (markers : bytes) (lines : list bytes) (tags : tagmap) (others : list bytes) : bool :=
-  let r := extract_tags markers lines in
+  let r := extract_tags true markers lines in
   negb (tagmap_eqb (fst r) tags && lines_eqb (snd r) others).
 
 Definition query_mismatch (ix : index) (q : query) : bool :=
-  let d := doc_of true ix (q_file q) (q_line q) in
+  let d := doc_of true true ix (q_file q) (q_line q) in
   negb (tagmap_eqb (fst d) (q_tags q) && lines_eqb (snd d) (q_doc q)
         && lines_eqb (comment_of true ix (q_file q) (q_line q)) (q_cmt q)).
 
